@@ -70,6 +70,7 @@ var concJudged = map[string]string{
 	"C05": "batch put del get",
 	"C10": "iter",
 	"C20": "backup",
+	"C17": "-", // nothing in the concurrent phase: Stat is recomputed once the callers are quiescent
 }
 
 func concJudges(prop, kind string) bool {
@@ -196,7 +197,7 @@ func runConc(r *Runner) {
 		hist = append(hist, ts.hist...)
 	}
 	r.judging = true
-	if r.C.Prop != "C09" { // C09 judges races, panics, deadlocks and bogus errors; histories are C08's business
+	if r.C.Prop != "C09" && r.C.Prop != "C17" { // C09 judges races, panics, deadlocks and bogus errors; histories are C08's business
 		r.checkLinearizable(initial, hist)
 		if r.violated() {
 			return
@@ -343,6 +344,8 @@ func (r *Runner) clientMain(ts *taskState, ops []Op) {
 		case "backup":
 			r.concBackup(ts, i, op, judged)
 		case "sleep":
+		case "yield":
+			vrt.Point(vrt.PUser, 0)
 		}
 	}
 }
@@ -709,9 +712,30 @@ func (r *Runner) verifyQuiescent(initial State, hist []HistOp) {
 		r.closeDB()
 		return
 	}
+	if r.C.Prop == "C17" {
+		r.judging = false // a wrong mapping is C08's business; only the accounting is judged here
+	}
 	live, f := dumpDB(r.DB, nil)
 	if f != "" {
 		r.fail("quiescent-dump", "", "live dump at quiescence: %s", f)
+		return
+	}
+	if r.C.Prop == "C17" {
+		// the counters after concurrent use, and after the restart that recomputes them
+		r.M = State(live.Vals).clone()
+		r.judging = true
+		r.checkStatExact("at quiescence after concurrent use")
+		if r.violated() {
+			return
+		}
+		r.judging = false
+		if !r.closeDB() || !r.openDB() {
+			return
+		}
+		r.judging = true
+		r.checkStatExact("after the restart that follows concurrent use")
+		r.judging = false
+		r.closeDB()
 		return
 	}
 	// the final value of each key must be explainable: add a final read per key to its history
